@@ -60,6 +60,7 @@ def signature(name, t, pre, post):
         "brEver": post["ghost"].get("brEver"), "jumpBack": post["ghost"].get("jumpBack"), "lateChange": post["ghost"].get("lateChange"), "disSup": post["ghost"].get("disSup"), "supBack": post["ghost"].get("supBack"), "midSwitch": post["ghost"].get("midSwitch"),
         "planEdited": bool(pre["used"].get("user.editplan")), "pre_hashOk": pre["ro"].get("hashOk"),
         "workloadObserved": pre["wl"].get("genOk"), "post_inprog": bool(post["wl"].get("inprog")), "pre_fstep": pre["ro"].get("fstep", ""),
+        "rev": post["user"].get("rev"),
     }
 
 
@@ -232,6 +233,36 @@ def c06_finals(results, violations, known):
         ok = set(base[cfgname][0].keys())
         extra = [v for v in fin if v not in ok]
         out[cfgname] = {"finals_undisturbed": len(ok), "finals_after_fault": len(fin), "not_in_undisturbed": len(extra)}
+        # C06reach: re-running from any state reached under fault injection can still END in one of the undisturbed
+        # final states (backward reachability from them over the recorded real graph): a fault must not leave the
+        # controllers in a loop or a dead end from which no final state of the fault-free runs is reachable.
+        meta = next((m for c, _, m, _, _ in results if c == cfgname and m is not None and _ is not None), None)
+        truncated = any(m.get("truncated") for c, pfx, m, _, _ in results if c == cfgname and pfx == run.prefix)
+        if not truncated:
+            good = {sid for sid, st in run._states.items() if is_terminal_quiet(st) and final_view(st) in ok}
+            rev = {}
+            for t in run.trans:
+                rev.setdefault(t["post"], set()).add(t["pre"])
+            seen, todo = set(good), list(good)
+            while todo:
+                x = todo.pop()
+                for y in rev.get(x, ()):
+                    if y not in seen:
+                        seen.add(y)
+                        todo.append(y)
+            nodes = {t["pre"] for t in run.trans} | {t["post"] for t in run.trans}
+            lost = sorted(n for n in nodes if n not in seen)
+            out[cfgname]["states_that_cannot_reach_an_undisturbed_final"] = len(lost)
+            if lost:
+                sid = lost[0]
+                sig = {"name": "C06reach", "cfg": cfgname}
+                payload = {"property": "C06", "predicate": "C06reach", "cfg": cfgname, "path": run.path_to(sid), "signature": sig,
+                           "lost_states": len(lost)}
+                kf = vlib.match_known("C06", sig)
+                if kf:
+                    known.append((kf, payload))
+                else:
+                    violations.append(payload)
         for v in extra[:5]:
             sid = fin[v]
             path = run.path_to(sid)
